@@ -110,10 +110,12 @@ def lawrp_event(K, eid, alg, keylists):
     from drive_session import sympy_to_G
     sym2id = {}
     mvs = []
+    # in half of the cases both operands are built from the SAME symbols (like terms meet when they are added)
+    same = zlib.crc32(eid.encode()) % 2 == 0
     for i, keys in enumerate(keylists):
-        letter = 'ab'[i]
+        letter = 'a' if same else 'ab'[i]
         for k in keys:
-            sym2id[letter + alg.bin2canon[int(k)][1:]] = (i + 1) * 1000 + int(k) + 1
+            sym2id[letter + alg.bin2canon[int(k)][1:]] = (1 if same else i + 1) * 1000 + int(k) + 1
         mvs.append(alg.multivector(name=letter, keys=tuple(int(k) for k in keys), symbolcls=RationalPolynomial.fromname))
     x, y = mvs
 
